@@ -28,10 +28,19 @@ Near(f) == {f} \cup UNION {{[f EXCEPT ![k] = ~f[k]]} : k \in DOMAIN f}
 FlagSets == Flags   \* all 32 option sets (the run takes seconds)
 Caps == [cc : BOOLEAN, te : BOOLEAN, dev : BOOLEAN]
 
+\* endpoints: "default" | "custom" (every endpoint of the provider moved, the legacy server is given the provider's table) |
+\* "legacyOwn" (router L: the provider keeps its defaults, the legacy server is constructed with its own moved table) |
+\* "legacyNoDevice" (router L: the legacy server's own table has no device authorization endpoint)
 ConfigCases == {[kind |-> "config", flags |-> f, caps |-> c, issuer |-> i, endpoints |-> e, router |-> r] :
                    f \in FlagSets, c \in Caps, i \in {"host", "path", "dynamicHost"}, e \in {"default", "custom"}, r \in {"P", "L"}}
-IssuerForms == {"empty", "nohost", "query", "fragment", "http", "httpInsecure", "https", "httpsPath", "httpsTrailingSlash", "garbage", "ftp"}
-IssuerCases == {[kind |-> "issuer", form |-> x, insecure |-> ins] : x \in IssuerForms, ins \in BOOLEAN}
+               \cup {[kind |-> "config", flags |-> f, caps |-> c, issuer |-> i, endpoints |-> e, router |-> "L"] :
+                   f \in Near(AllOn) \cup Near(AllOff), c \in Caps, i \in {"host", "path", "dynamicHost"}, e \in {"legacyOwn", "legacyNoDevice"}}
+\* issuer strings: scheme x host x decoration, plus two degenerate strings; built by either constructor
+IssuerCases == {[kind |-> "issuer", scheme |-> sc, host |-> h, deco |-> d, insecure |-> ins, via |-> v] :
+                   sc \in {"https", "http", "ftp"}, h \in {"host", "localhost", "nohost"},
+                   d \in {"none", "path", "slash", "query", "fragment", "pathQuery", "pathFragment"}, ins \in BOOLEAN, v \in {"NewProvider", "NewOpenIDProvider"}}
+               \cup {[kind |-> "issuer", scheme |-> x, host |-> "nohost", deco |-> "none", insecure |-> ins, via |-> v] :
+                   x \in {"empty", "garbage"}, ins \in BOOLEAN, v \in {"NewProvider", "NewOpenIDProvider"}}
 DiscoverCases == {[kind |-> "discover", doc |-> d] : d \in {"equal", "different", "trailingSlash", "empty", "otherScheme", "subpath"}}
 
 Groups == {"config", "issuer", "discover"}
@@ -55,7 +64,9 @@ Accepted(c) ==         \* grants the token endpoint does not answer with unsuppo
 GoodConfig(c) == [issuerDoc |-> "same", issuerToken |-> "same", badEndpoints |-> <<>>, grantsAdv |-> SetToSeq(Advertised(c)), grantsAcc |-> SetToSeq(Accepted(c)),
                   s256Adv |-> c.flags.s256, s256OK |-> TRUE, plainOK |-> TRUE, reqobjAdv |-> c.flags.reqobj, reqobjOK |-> c.flags.reqobj, panic |-> FALSE]
 
-IssuerAccepted(c) == c.form \in {"https", "httpsPath", "httpsTrailingSlash"} \/ (c.form \in {"http", "httpInsecure"} /\ c.insecure)
+IssuerAccepted(c) == /\ c.scheme = "https" \/ (c.scheme = "http" /\ c.insecure)
+                     /\ c.host # "nohost"
+                     /\ c.deco \in {"none", "path", "slash"}
 
 Outcomes(c) ==
   CASE c.kind = "config"   -> {GoodConfig(c)}
@@ -72,8 +83,10 @@ RulesConfig(c, o) ==
     <<"C19.reqobj.honoured",  o.reqobjAdv => o.reqobjOK>>,
     <<"C09.nopanic", ~o.panic>> }
 RulesIssuer(c, o) ==
-  { <<"C19.issuer.rejected", (c.form \in {"empty", "nohost", "query", "fragment", "garbage", "ftp"} \/ (c.form \in {"http", "httpInsecure"} /\ ~c.insecure)) => ~o.accepted>>,
-    <<"C19.issuer.accepted", (c.form \in {"https", "httpsPath"}) => o.accepted>> }
+  { <<"C19.issuer.rejected", (\/ c.scheme \notin {"https", "http"} \/ c.host = "nohost"                    \* empty, host-less, not a web origin
+                              \/ c.deco \in {"query", "fragment", "pathQuery", "pathFragment"}          \* carries query or fragment
+                              \/ (c.scheme = "http" /\ ~c.insecure)) => ~o.accepted>>,                   \* http without the insecure opt-in
+    <<"C19.issuer.accepted", (c.scheme = "https" /\ c.host # "nohost" /\ c.deco \in {"none", "path"}) => o.accepted>> }
 RulesDiscover(c, o) ==
   { <<"C19.discover.issuer", (c.doc # "equal") => ~o.accepted>>,
     <<"C19.discover.equal",  (c.doc = "equal") => o.accepted>> }
